@@ -63,6 +63,15 @@ def core_family() -> list[dict]:
     return fam
 
 
+def with_outputs(prog: dict) -> dict:
+    """every task publishes an output key, so what a downstream task sees is observable (C01 data clause)"""
+    for s in prog["stages"]:
+        for t in s["tasks"]:
+            if not t["out"]:
+                t["out"] = {"o_" + t["name"].replace(".", "_"): t["name"]}
+    return prog
+
+
 def by_name(name: str) -> dict:
     for p in all_programs():
         if p["name"] == name:
@@ -108,7 +117,7 @@ def control_family() -> list[dict]:
 
 
 def all_programs() -> list[dict]:
-    return core_family() + extra_family() + control_family() + synthetic_family()
+    return [with_outputs(p) for p in core_family() + extra_family() + control_family() + synthetic_family()]
 
 
 # ----------------------------------------------------------------------------------------------
@@ -284,7 +293,7 @@ def tla_program(prog: dict) -> dict:
 
 
 DEFAULT_ORACLE = {"Ref": '[wf |-> "", st |-> <<>>]', "Ideal": '[wf |-> "", st |-> <<>>]', "Racy": "{}",
-                  "ExecMax": "<<>>", "CheckProps": "{}", "MaxDepth": "400"}
+                  "ExecMax": "<<>>", "RefViews": "<<>>", "CheckProps": "{}", "MaxDepth": "400"}
 
 
 def oracle_tla(ref: dict) -> dict:
@@ -292,7 +301,8 @@ def oracle_tla(ref: dict) -> dict:
     return {"Ref": "[wf |-> %s, st |-> %s]" % (tla_value(ref["Ref"]["wf"]), tla_value(ref["Ref"]["st"])),
             "Ideal": "[wf |-> %s, st |-> %s]" % (tla_value(ref["Ideal"]["wf"]), tla_value(ref["Ideal"]["st"])),
             "Racy": tla_value(set(ref["Racy"])),
-            "ExecMax": tla_value(ref["ExecMax"])}
+            "ExecMax": tla_value(ref["ExecMax"]),
+            "RefViews": tla_value({k: set(v) for k, v in ref.get("RefViews", {}).items()})}
 
 
 def to_tla(prog: dict, extra: dict | None = None) -> str:
